@@ -53,6 +53,12 @@ def field_ref(f, positional_default=False):
     meta = '"ARG"'
     if cons and '(' in cons and (cons.startswith('argument') or cons.startswith('positional')):
         meta = cons[cons.index('(') + 1:-1]
+    if cons and cons.startswith('external'):
+        m = re.match(r'^external\((\w+)\)$', cons)
+        e = '%s()' % (m.group(1) if m else kebab(f.name).replace('-', '_'))
+        for p in f.post:
+            e += '.' + (p if '(' in p else p + '()')
+        return e
     if named:
         names = []
         for (k, v) in f.naming:
@@ -79,8 +85,10 @@ def field_ref(f, positional_default=False):
     else:
         e = '::bpaf::positional::<%s>(%s)' % (ty, meta)
         if f.doc: e += '.help(%s)' % lit(f.doc)
-    if shape == 'Option': e += '.optional()'
-    elif shape == 'Vec': e += '.many()'
+    parse_like = any(re.match(r'^(optional|many|some|map|parse|collect|count|last)\b', p) for p in f.post)
+    if not parse_like and not (cons or '').startswith('external'):
+        if shape == 'Option': e += '.optional()'
+        elif shape == 'Vec': e += '.many()'
     for p in f.post:
         e += '.' + (p if '(' in p else p + '()')
     return e
@@ -115,7 +123,9 @@ class Member:
         out = doc_text(self.doc, '    ')
         out += '    #[derive(Debug, Clone, Bpaf)]\n'
         if self.top: out += '    #[bpaf(%s)]\n' % ', '.join(self.top)
-        if self.kind == 'struct':
+        if self.kind == 'struct' and not self.fields:
+            out += '    pub struct %s;\n' % self.name
+        elif self.kind == 'struct':
             if self.tuple:
                 out += '    pub struct %s(%s);\n' % (self.name, ', '.join(('%s%spub %s' % (doc_text(f.doc, '').replace('\n', ' ') if False else '', attr_text(f).replace('\n        ', ' '), f.ty)) for f in self.fields))
             else:
@@ -174,6 +184,11 @@ class Member:
         ret = '::bpaf::OptionParser<%s>' % self.name if is_opts else ('impl ::bpaf::Parser<%s>' % self.name)
         if self.kind == 'struct':
             body = self.fields_block(self.fields, self.name, self.tuple, '            ')
+            if body is None:
+                # unit struct: a required flag named after the type
+                kn = variant_kebab(self.name)
+                body = '::bpaf::long(%s).req_flag(%s)' % (lit(kn), self.name)
+            if 'adjacent' in self.top: body += '.adjacent()'
             body += self.top_suffix(self.doc, self.top, variant_kebab(self.name))
             if not is_opts and not cmd and self.doc:
                 body += '.group_help(%s)' % lit(self.doc)
@@ -207,7 +222,7 @@ class Member:
         return '    pub fn reference() -> %s {\n        #[allow(unused_imports)]\n        use ::bpaf::Parser;\n        %s\n    }\n' % (ret, body)
 
     def text(self):
-        return 'pub mod %s {\n    #![allow(dead_code, unused_imports, non_snake_case)]\n    use bpaf::*;\n    use std::path::PathBuf;\n%s\n%s}\n' % (self.mod, self.input(), self.reference())
+        return 'pub mod %s {\n    #![allow(dead_code, unused_imports, non_snake_case)]\n    use bpaf::*;\n    use std::path::PathBuf;\n    pub fn positive(x: &usize) -> bool { *x > 0 }\n    pub fn level() -> impl Parser<f64> { ::bpaf::long("level").argument::<f64>("LVL") }\n    pub const MSG: &str = "must be positive";\n%s\n%s}\n' % (self.mod, self.input(), self.reference())
 
     def derived_fn(self):
         for t in self.top:
@@ -244,6 +259,15 @@ def base_family():
         dict(name='RunTests', shape='named', attrs=['command'], doc='run the tests', fields=[F('filter', 'Vec<String>', cons='positional("FILTER")')]),
         dict(name='Clean', shape='unit', attrs=['command'], doc='remove artefacts')]))
     M.append(Member('b_struct_cmd', 'struct', 'Sub', top=['command'], doc='a sub command', fields=[F('depth', 'u32', naming=[('short', None), ('long', None)])]))
+    M.append(Member('b_explicit_cons', 'struct', 'Cons', top=['options'], fields=[
+        F('item', 'bool', cons='flag(true, false)'), F('needed', 'bool', cons='req_flag(true)'),
+        F('config', 'Vec<u32>', cons='argument("N")', post=['some("need params")']),
+        F('number', 'usize', post=['guard(positive, "msg")']), F('other', 'usize', post=['guard(positive, MSG)']),
+        F('lvl', 'f64', cons='external(level)'), F('lvl2', 'Option<f64>', cons='external(level)', post=['optional'])]))
+    M.append(Member('b_cmd_alias', 'struct', 'Command', top=['command', "short('c')", 'long("long")', 'long("long2")'], doc='help', fields=[F('i', 'bool')]))
+    M.append(Member('b_cmd_named', 'struct', 'Renamed', top=['command("do-it")'], doc='does it', fields=[F('fast', 'bool')]))
+    M.append(Member('b_generate', 'struct', 'Foo', top=['generate(oof)']))
+    M.append(Member('b_adjacent', 'struct', 'Adj', top=['adjacent'], fields=[F('a', 'String'), F('b', 'String')]))
     M.append(Member('b_usage', 'struct', 'Usage', top=['options', 'fallback_to_usage'], fields=[F('a', 'u32')]))
     return M
 
